@@ -62,6 +62,8 @@ def gen_sp_entity(rng, k):
     bs = [rng.choice(B[:4]) for _ in range(n)]
     for i, b in enumerate(bs):
         loc = "https://sp%d.c08.example/acs/%d" % (k, rng.randrange(3) if rng.random() < 0.3 else i)
+        if rng.random() < 0.25:
+            loc += rng.choice(["?option=com_saml&task=acs", "?tenant=a&app=b", "?x=1"])
         idx = str(rng.choice([i, i, i + 10, 0]))
         acs.append((b, loc, idx))
     slo = []
@@ -81,7 +83,7 @@ def gen_idp_entity(rng, k):
     sso, slo = [], []
     for i in range(rng.randint(1, 4)):  # an IDPSSODescriptor without SSO service is schema-invalid
         sso.append((rng.choice([S.BINDING_POST, S.BINDING_REDIRECT, S.BINDING_ARTIFACT]),
-                    "https://idp%d.c08.example/sso/%d" % (k, i)))
+                    "https://idp%d.c08.example/sso/%d" % (k, i) + (rng.choice(["?tenant=a&app=b", "?idp=1"]) if rng.random() < 0.25 else "")))
     for i in range(rng.randint(0, 4)):
         slo.append((rng.choice([S.BINDING_POST, S.BINDING_REDIRECT, S.BINDING_SOAP]),
                     "https://idp%d.c08.example/slo/%d" % (k, i)))
@@ -147,7 +149,9 @@ def gen_cases(rng, tier):
                 c = rng.randrange(6)
                 index = None if c < 2 else rng.choice(acs)[2] if c < 4 else rng.choice(["99", "abc", "", "-1", "00"])
                 c = rng.randrange(6)
-                pb = None if c < 2 else rng.choice(acs)[0] if c < 4 else rng.choice(B + ["urn:bogus:binding", ""])
+                pb = None if c < 2 else rng.choice(acs)[0] if c < 4 else rng.choice(
+                    B + ["urn:bogus:binding", "", rng.choice(acs)[0] + "-SimpleSign", rng.choice(acs)[0][:-1],
+                         rng.choice(acs)[0].upper(), "x" + rng.choice(acs)[0], rng.choice(acs)[0] + " "])
                 c = rng.randrange(4)
                 barg = [] if c < 2 else rng.sample(B, rng.randint(1, 3))
                 yield {"op": "pick", "md": {"sps": sps, "pref": pref_cfg}, "service": "assertion_consumer_service",
@@ -170,7 +174,8 @@ def gen_cases(rng, tier):
                 yield {"op": "sso", "md": {"idps": idps},
                        "entity": "https://unknown.c08.example/idp" if unknown else ent["entity_id"],
                        "eps": None if unknown else eps_of(ent, "idpsso", "sso"),
-                       "binding": rng.choice([S.BINDING_POST, S.BINDING_REDIRECT, S.BINDING_ARTIFACT, "urn:bogus"]),
+                       "binding": rng.choice([S.BINDING_POST, S.BINDING_REDIRECT, S.BINDING_ARTIFACT, "urn:bogus",
+                                              S.BINDING_POST + "-SimpleSign", S.BINDING_REDIRECT[:-1], S.BINDING_POST.upper()]),
                        "via": rng.choice(["_sso_location", "prepare_for_authenticate"])}
             elif kind == "negotiate":
                 unknown = rng.random() < 0.1
@@ -389,7 +394,9 @@ def _dest_of(info, binding):
     """Where the browser / HTTP client is sent, read back from the prepared request."""
     if info.get("method") == "GET" or binding in (S.BINDING_REDIRECT, S.BINDING_ARTIFACT):
         loc = dict(info.get("headers") or []).get("Location") or info.get("url")
-        return loc.split("?")[0]  # generated SSO/SLO locations carry no query string
+        # the registered location may itself carry a query string: cut where the SAML parameters start
+        cut = min([i for i in (loc.find(k) for k in ("SAMLRequest=", "SAMLResponse=", "SAMLart=")) if i >= 0] or [len(loc)])
+        return loc[:cut].rstrip("?&")
     if "data" in info and isinstance(info["data"], str) and "<form" in info["data"]:
         m = re.search(r'action="([^"]*)"', info["data"])
         import html
